@@ -104,6 +104,16 @@ fn catalogue(k: usize, dead_session: Option<u32>) -> Vec<Fault> {
         Fault { kind: "index-huge", content: "<assign location=\"x\" expr=\"arr[9223372036854775807]\"/><assign location=\"x\" expr=\"1\"/>".into(), expect: Expect::AtMost, aborts_block: None },
         Fault { kind: "assign-index-out-of-range", content: "<assign location=\"arr[99]\" expr=\"7\"/><assign location=\"arr\" expr=\"[1, 2, 3]\"/>".into(), expect: Expect::AtMost, aborts_block: None },
         Fault { kind: "assign-index-negative", content: "<assign location=\"arr[0 - 1]\" expr=\"7\"/><assign location=\"arr\" expr=\"[1, 2, 3]\"/>".into(), expect: Expect::AtMost, aborts_block: None },
+        Fault { kind: "string-escape-surrogate-pair", content: "<assign location=\"x\" expr=\"'\\ud83d\\ude00'\"/><assign location=\"x\" expr=\"1\"/>".into(), expect: Expect::AtMost, aborts_block: None },
+        Fault { kind: "string-escape-lone-surrogate", content: "<assign location=\"x\" expr=\"'\\ud800'\"/><assign location=\"x\" expr=\"1\"/>".into(), expect: Expect::AtMost, aborts_block: None },
+        Fault { kind: "string-escape-low-surrogate", content: "<assign location=\"x\" expr=\"'a\\udfffb'\"/><assign location=\"x\" expr=\"1\"/>".into(), expect: Expect::AtMost, aborts_block: None },
+        Fault { kind: "string-escape-hex-letters", content: "<assign location=\"x\" expr=\"'\\u00e9'\"/><assign location=\"x\" expr=\"1\"/>".into(), expect: Expect::AtMost, aborts_block: None },
+        Fault { kind: "string-escape-not-hex", content: "<assign location=\"x\" expr=\"'\\uZZZZ'\"/><assign location=\"x\" expr=\"1\"/>".into(), expect: Expect::AtMost, aborts_block: None },
+        Fault { kind: "string-escape-short", content: "<assign location=\"x\" expr=\"'\\u12'\"/><assign location=\"x\" expr=\"1\"/>".into(), expect: Expect::AtMost, aborts_block: None },
+        Fault { kind: "string-escape-at-end", content: "<assign location=\"x\" expr=\"'tail\\'\"/><assign location=\"x\" expr=\"1\"/>".into(), expect: Expect::AtMost, aborts_block: None },
+        Fault { kind: "string-escape-unknown", content: "<assign location=\"x\" expr=\"'\\q\\x41\\0'\"/><assign location=\"x\" expr=\"1\"/>".into(), expect: Expect::AtMost, aborts_block: None },
+        Fault { kind: "string-unterminated", content: "<assign location=\"x\" expr=\"'abc\"/><assign location=\"x\" expr=\"1\"/>".into(), expect: Expect::AtMost, aborts_block: None },
+        Fault { kind: "string-non-ascii", content: "<assign location=\"x\" expr=\"'ä€😀'\"/><assign location=\"x\" expr=\"1\"/>".into(), expect: Expect::AtMost, aborts_block: None },
         Fault { kind: "raise-odd-name", content: "<raise event=\"error.platform.almostcancel\"/>".into(), expect: Expect::Nothing, aborts_block: Some(false) },
     ];
     if let Some(d) = dead_session {
